@@ -61,3 +61,27 @@ Proof.
   destruct (SpliceProofs.C18_bytes old ds H1 H2) as [_ Hb]. rewrite (Hb H3). reflexivity.
 Qed.
 Print Assumptions C18_single_payload_partial.
+
+(* every edit of an ordered list is written - also when a replaced range starts exactly where the previous one
+   ends (touching ranges: `a++;b++;`, `{a:1,b:2,}` with an expansion over the comma) *)
+Theorem C18_disjoint_edits_all_written :
+  forall old ds,
+    ordered_from 0 ds -> inside old ds -> ds <> [] ->
+    accept 0 ds = ds /\
+    update_file old ds = (Done (Some (spliced old 0 ds)), length ds).
+Proof.
+  intros old ds Hord Hin Hne.
+  pose proof (SpliceProofs.accept_ordered_all ds 0 Hord) as Hacc. split; [exact Hacc|].
+  assert (Hse : forall d, In d ds -> ed_s d <= ed_e d).
+  { clear Hin Hne Hacc. revert Hord. generalize 0. induction ds as [|d r IH]; intros lo Hord x Hx; [destruct Hx|].
+    cbn [ordered_from] in Hord. destruct Hord as (_ & H2 & H3). destruct Hx as [<-|Hx]; [exact H2 | exact (IH _ H3 x Hx)]. }
+  destruct (SpliceProofs.C18_bytes old ds Hse Hin) as [_ H2]. rewrite Hacc in H2. apply H2. exact Hne.
+Qed.
+Print Assumptions C18_disjoint_edits_all_written.
+
+(* non-vacuity: "abcd", [0,2) -> "x" and the touching [2,4) -> "y" *)
+Example C18_touching_ex :
+  let ds := [{| ed_s := 0; ed_e := 2; ed_text := [120]%N |}; {| ed_s := 2; ed_e := 4; ed_text := [121]%N |}] in
+  ordered_from 0 ds /\ update_file [97;98;99;100]%N ds = (Done (Some [120;121]%N), 2).
+Proof. split; [cbn; repeat split; auto with arith | vm_compute; reflexivity]. Qed.
+Print Assumptions C18_touching_ex.
